@@ -28,6 +28,23 @@ Tie:   (0) harness/translate_functions.py regenerates lean/LabreaModel/Generated
            by a step editing its input; helper function arguments that edit what they are called
            with.  A step's transform is a function of (x, options) only, so all of (1) applies,
            and the value a body received (logged by deep copy at entry) is the value written.
+       (4) a directed family run in every run (`operand_family`): every helper of labrea.functions on
+           every kind of container Python programs pass -- collections.Counter, defaultdict (with and
+           without a factory), OrderedDict, ChainMap, dict / UserDict / ChainMap subclasses defining
+           __missing__, types.MappingProxyType, UserDict / UserList / UserString, a collections.abc.Mapping
+           subclass, deque, range, str / bytes / bytearray, named tuples, set / frozenset, dict views,
+           generators, list iterators, map / chain objects, an iterator class, classes with only
+           __getitem__ (old-style sequence protocol, with and without __len__, by index and by key), only
+           __iter__, only __contains__ -- as the pipeline input and as the container parameter; get /
+           get_from over every key / index situation (present, absent, 0, negative, -len, len, -len-1, far
+           out of range, str index, unhashable key, empty container) with the default omitted, given as
+           None, and given as a value; scalar parameters as constants and as Options.  Reference: the
+           documented Python equivalent written without labrea (RUNNER.EQUIV; lazy where the builtin named
+           by the docstring is lazy) evaluated on operands of its own built from the same description.
+           Compared: the value with the types of its containers or the exception class, whether the
+           result is the input object, what was pulled from each one-shot operand when the step returned
+           and after the result was used up, and the input as the call left it (implementation-only:
+           these operands are outside the model's value universe).
 Oracle on the implementation alone: iteration order = application order; bracketing does not
 change steps / transform / keys; empty pipelines are neutral; (a + b).transform = b after a;
 (e >> p)(o) = p.transform(e(o), o); keys()/explain() = union over the steps and contain the
@@ -94,7 +111,7 @@ SPEC = PropSpec(
 # ----------------------------------------------------------------------------- runner (subprocess)
 
 RUNNER = r'''
-import sys, json, functools, itertools, types, inspect, copy
+import sys, json, functools, itertools, types, inspect, copy, collections, collections.abc
 from collections.abc import Mapping
 import labrea
 import labrea.application
@@ -1010,6 +1027,473 @@ def run_helper(case):
     return out
 
 
+# ---- the operand kinds of the directed family `operand_family`: the containers Python programs hand to the helper
+# steps, written {"K": kind, "v": payload} in the case language and built afresh for every evaluation
+TRACK = []          # one counter per one-shot operand built for the evaluation in progress: items pulled from it
+
+
+def _counting(items):
+    slot = [0]
+    TRACK.append(slot)
+
+    def g():
+        for it in items:
+            slot[0] += 1
+            yield it
+    return g()
+
+
+def _same(a):
+    return a
+
+
+class IterClass:
+    """an iterator written as a class; copies (labrea copies constants it can copy) count into the same slot"""
+
+    def __init__(self, items):
+        self.items, self.pos, self.slot = list(items), 0, len(TRACK)
+        TRACK.append([0])
+
+    def __iter__(self):
+        return self
+
+    def __next__(self):
+        if self.pos >= len(self.items):
+            raise StopIteration
+        self.pos += 1
+        if self.slot < len(TRACK):
+            TRACK[self.slot][0] += 1
+        return self.items[self.pos - 1]
+
+
+class DictMissing(dict):
+    def __missing__(self, key):
+        return ("missing", key)
+
+
+class DictMissingRaises(dict):
+    def __missing__(self, key):
+        raise KeyError(key)
+
+
+class UserDictMissing(collections.UserDict):
+    def __missing__(self, key):
+        return ("missing", key)
+
+
+class ChainMapMissing(collections.ChainMap):
+    def __missing__(self, key):
+        return ("missing", key)
+
+
+class AbcMapping(Mapping):
+    def __init__(self, pairs):
+        self._d = dict(pairs)
+
+    def __getitem__(self, k):
+        return self._d[k]
+
+    def __iter__(self):
+        return iter(self._d)
+
+    def __len__(self):
+        return len(self._d)
+
+
+class GetItemOnly:
+    """the old-style sequence protocol: __getitem__ on 0, 1, ... until IndexError; nothing else"""
+
+    def __init__(self, items):
+        self._items = list(items)
+
+    def __getitem__(self, i):
+        if not isinstance(i, int):
+            raise TypeError("indices must be integers")
+        if i < 0 or i >= len(self._items):
+            raise IndexError(i)
+        return self._items[i]
+
+
+class GetItemLen(GetItemOnly):
+    def __len__(self):
+        return len(self._items)
+
+
+class IterOnly:
+    def __init__(self, items):
+        self._items = list(items)
+
+    def __iter__(self):
+        return iter(self._items)
+
+
+class ContainsOnly:
+    def __init__(self, items):
+        self._items = list(items)
+
+    def __contains__(self, x):
+        return x in self._items
+
+
+class KeyedGetItemOnly:
+    """a record: __getitem__ by key (KeyError when absent); nothing else"""
+
+    def __init__(self, pairs):
+        self._d = dict(pairs)
+
+    def __getitem__(self, k):
+        return self._d[k]
+
+
+_NT = {}
+
+
+def _namedtuple(items):
+    n = len(items)
+    if n not in _NT:
+        _NT[n] = collections.namedtuple("Row%d" % n, ["f%d" % i for i in range(n)])
+    return _NT[n](*items)
+
+
+def _pairs(v):
+    return [(dec(k), dec(x)) for k, x in v]
+
+
+def _items(v):
+    return [dec(x) for x in v]
+
+
+def _chain(cls, v):
+    p = _pairs(v)
+    return cls(dict(p[:1]), dict(p[1:]))
+
+
+KINDS = {
+    "dict": lambda v: dict(_pairs(v)),
+    "counter": lambda v: collections.Counter(dict(_pairs(v))),
+    "defaultdict_list": lambda v: collections.defaultdict(list, _pairs(v)),
+    "defaultdict_int": lambda v: collections.defaultdict(int, _pairs(v)),
+    "defaultdict_nofactory": lambda v: collections.defaultdict(None, _pairs(v)),
+    "ordereddict": lambda v: collections.OrderedDict(_pairs(v)),
+    "chainmap": lambda v: _chain(collections.ChainMap, v),
+    "chainmap_missing": lambda v: _chain(ChainMapMissing, v),
+    "dict_missing": lambda v: DictMissing(_pairs(v)),
+    "dict_missing_raises": lambda v: DictMissingRaises(_pairs(v)),
+    "mappingproxy": lambda v: types.MappingProxyType(dict(_pairs(v))),
+    "userdict": lambda v: collections.UserDict(dict(_pairs(v))),
+    "userdict_missing": lambda v: UserDictMissing(dict(_pairs(v))),
+    "abc_mapping": lambda v: AbcMapping(_pairs(v)),
+    "keyed_getitem_only": lambda v: KeyedGetItemOnly(_pairs(v)),
+    "list": lambda v: _items(v),
+    "tuple": lambda v: tuple(_items(v)),
+    "str": lambda v: str(v),
+    "bytes": lambda v: v.encode("latin1"),
+    "bytearray": lambda v: bytearray(v.encode("latin1")),
+    "range": lambda v: range(*v),
+    "deque": lambda v: collections.deque(_items(v)),
+    "userlist": lambda v: collections.UserList(_items(v)),
+    "userstring": lambda v: collections.UserString(v),
+    "namedtuple": lambda v: _namedtuple(_items(v)),
+    "set": lambda v: set(_items(v)),
+    "frozenset": lambda v: frozenset(_items(v)),
+    "dict_keys": lambda v: dict(_pairs(v)).keys(),
+    "dict_values": lambda v: dict(_pairs(v)).values(),
+    "dict_items": lambda v: dict(_pairs(v)).items(),
+    "generator": lambda v: _counting(_items(v)),
+    "list_iterator": lambda v: iter(_items(v)),
+    "map_object": lambda v: map(_same, _counting(_items(v))),
+    "chain_object": lambda v: itertools.chain(_counting(_items(v))),
+    "iterator_class": lambda v: IterClass(_items(v)),
+    "getitem_only": lambda v: GetItemOnly(_items(v)),
+    "getitem_len": lambda v: GetItemLen(_items(v)),
+    "iter_only": lambda v: IterOnly(_items(v)),
+    "contains_only": lambda v: ContainsOnly(_items(v)),
+}
+SHOWN = {
+    "dict": "%s", "counter": "collections.Counter(%s)", "defaultdict_list": "collections.defaultdict(list, %s)",
+    "defaultdict_int": "collections.defaultdict(int, %s)", "defaultdict_nofactory": "collections.defaultdict(None, %s)",
+    "ordereddict": "collections.OrderedDict(%s)", "mappingproxy": "types.MappingProxyType(%s)",
+    "userdict": "collections.UserDict(%s)", "list": "%s", "str": "%s", "userstring": "collections.UserString(%s)",
+    "deque": "collections.deque(%s)", "userlist": "collections.UserList(%s)", "set": "set(%s)",
+    "frozenset": "frozenset(%s)", "dict_keys": "%s.keys()", "dict_values": "%s.values()", "dict_items": "%s.items()",
+    "generator": "(a for a in %s)", "list_iterator": "iter(%s)", "map_object": "map(lambda a: a, (a for a in %s))",
+    "chain_object": "itertools.chain((a for a in %s))", "tuple": "tuple(%s)",
+    "namedtuple": "Row(*%s)  # Row = collections.namedtuple('Row', 'f0 f1 ...')",
+    "dict_missing": "DictMissing(%s)  # class DictMissing(dict): __missing__ = lambda self, key: ('missing', key)",
+    "dict_missing_raises": "DictMissingRaises(%s)  # a dict subclass whose __missing__ raises KeyError(key)",
+    "userdict_missing": "UserDictMissing(%s)  # a collections.UserDict subclass with __missing__ = lambda self, key: ('missing', key)",
+    "abc_mapping": "AbcMapping(%s)  # a collections.abc.Mapping subclass over a dict (__getitem__, __iter__, __len__)",
+    "keyed_getitem_only": "KeyedGetItemOnly(%s)  # a class with only __getitem__(key) over a dict",
+    "iterator_class": "IterClass(%s)  # a class with __iter__ returning self and __next__",
+    "getitem_only": "GetItemOnly(%s)  # a class with only __getitem__(int), IndexError past the end",
+    "getitem_len": "GetItemLen(%s)  # a class with only __getitem__(int) and __len__",
+    "iter_only": "IterOnly(%s)  # a class with only __iter__",
+    "contains_only": "ContainsOnly(%s)  # a class with only __contains__",
+}
+for _t, _n in [("Sequence", collections.abc.Sequence), ("Iterable", collections.abc.Iterable),
+               ("Iterator", collections.abc.Iterator), ("Set", collections.abc.Set), ("Sized", collections.abc.Sized),
+               ("Hashable", collections.abc.Hashable), ("Container", collections.abc.Container),
+               ("Counter", collections.Counter), ("frozenset", frozenset), ("bytes", bytes)]:
+    TYPES[_t] = _n
+    TYPE_NAMES[id(_n)] = _t
+# functions defined on operands of every type (the operand family's function arguments)
+PRIM_SRC = {
+    "pair": "lambda a: (a, a)", "ident": "lambda a: a", "box": "lambda a: [a]", "gen2": "lambda a: (b for b in (a, a))",
+    "keep": "lambda a: a not in (10, 'a', 1, 97, ('a', 1), (1, 10))", "nest": "lambda acc, b: (acc, b)",
+    "capture": "lambda *a, **k: ('call', a, tuple(sorted(k.items())))", "kv_box": "lambda k, v: ((k,), [v])",
+    "k_tuple": "lambda k: (k,)", "kv_keep": "lambda k, v: k not in ('a', 1)", "truthy": "lambda a: bool(a)",
+    "longer": "lambda a: len(a) > 1",
+}
+for _n, _src in PRIM_SRC.items():
+    _f = eval(_src)
+    PRIMS[_n] = _f
+    FN_NAMES[id(_f)] = "prim:" + _n
+
+
+def show(j):
+    """a case-language value as Python source (for the reproducer printed with a finding)"""
+    if j is None or isinstance(j, (bool, int, str)):
+        return repr(j)
+    if isinstance(j, list):
+        return "[%s]" % ", ".join(show(x) for x in j)
+    if "K" in j:
+        k, v = j["K"], j["v"]
+        if k in ("bytes", "bytearray"):
+            return ("%r" if k == "bytes" else "bytearray(%r)") % v.encode("latin1")
+        if k == "range":
+            return "range(%s)" % ", ".join(str(a) for a in v)
+        if k in ("chainmap", "chainmap_missing"):
+            return "%s(%s, %s)" % ("collections.ChainMap" if k == "chainmap" else "ChainMapMissing",
+                                   show({"d": v[:1]}), show({"d": v[1:]}))
+        inner = repr(v) if isinstance(v, str) else show({"d": v}) if k in PAIR_KINDS else show(v)
+        return SHOWN[k] % inner
+    if "t" in j:
+        return "(%s)" % "".join(show(x) + ", " for x in j["t"])
+    if "s" in j:
+        return "{%s}" % ", ".join(show(x) for x in j["s"]) if j["s"] else "set()"
+    if "d" in j:
+        return "{%s}" % ", ".join("%s: %s" % (show(k), show(v)) for k, v in j["d"])
+    if "F" in j:
+        return "(%s)" % PRIM_SRC[j["F"][5:]] if j["F"][5:] in PRIM_SRC else j["F"]
+    if "T" in j:
+        return j["T"]
+    return json.dumps(j)
+
+
+PAIR_KINDS = {"dict", "counter", "defaultdict_list", "defaultdict_int", "defaultdict_nofactory", "ordereddict", "chainmap",
+              "chainmap_missing", "dict_missing", "dict_missing_raises", "mappingproxy", "userdict", "userdict_missing",
+              "abc_mapping", "keyed_getitem_only", "dict_keys", "dict_values", "dict_items"}
+_dec_plain = dec
+
+
+def dec(j):          # noqa: F811  (the case language plus operand kinds)
+    if isinstance(j, dict) and "K" in j:
+        return KINDS[j["K"]](j["v"])
+    return _dec_plain(j)
+
+
+def enc2(o, depth=0):
+    """a result with the types of its containers (a Counter is not a dict, a chain object is not a list);
+    iterators are drained: {"iterator": [...]} plus the class of the exception that ended it, if any"""
+    if depth > 8:
+        return {"py": "deep"}
+    if o is None or isinstance(o, (bool, int, str)):
+        return o
+    if isinstance(o, float):
+        return {"float": repr(o)}
+    t = type(o)
+    e = lambda a: enc2(a, depth + 1)      # noqa: E731
+    if t is list:
+        return [e(a) for a in o]
+    if t is tuple:
+        return {"t": [e(a) for a in o]}
+    if t is dict:
+        return {"d": [[e(k), e(v)] for k, v in o.items()]}
+    if isinstance(o, (bytes, bytearray)):
+        return {"T": t.__name__, "v": bytes(o).decode("latin1")}
+    if isinstance(o, range):
+        return {"T": "range", "v": [o.start, o.stop, o.step]}
+    if isinstance(o, (set, frozenset)) or t.__name__ in ("dict_keys", "dict_items"):
+        try:
+            return {"T": t.__name__, "v": sorted((e(a) for a in o), key=enc_sortkey)}
+        except Exception as x:
+            return {"T": t.__name__, "raised": type(x).__name__}
+    if isinstance(o, collections.ChainMap):
+        return {"T": t.__name__, "maps": [e(m) for m in o.maps]}
+    if isinstance(o, collections.defaultdict):
+        return {"T": t.__name__, "factory": getattr(o.default_factory, "__name__", None), "d": [[e(k), e(v)] for k, v in o.items()]}
+    if isinstance(o, (dict, types.MappingProxyType, collections.UserDict, AbcMapping)):
+        return {"T": t.__name__, "d": [[e(k), e(o[k])] for k in list(o)]}
+    if isinstance(o, (GetItemOnly, IterOnly, ContainsOnly)):
+        return {"T": t.__name__, "v": [e(a) for a in o._items]}
+    if isinstance(o, KeyedGetItemOnly):
+        return {"T": t.__name__, "d": [[e(k), e(v)] for k, v in o._d.items()]}
+    if isinstance(o, collections.UserString):
+        return {"T": t.__name__, "v": o.data}
+    if isinstance(o, (list, tuple, collections.deque, collections.UserList)) or t.__name__ == "dict_values":
+        return {"T": t.__name__, "v": [e(a) for a in o]}
+    if isinstance(o, (Sym, Rec)) or o is MISSING:
+        return enc(o)
+    if isinstance(o, type):
+        return {"type": o.__name__}
+    if hasattr(o, "__next__"):
+        got, it = [], iter(o)
+        while len(got) < 200:
+            try:
+                got.append(e(next(it)))
+            except StopIteration:
+                return {"iterator": got}
+            except Exception as x:
+                return {"iterator": got, "raised": type(x).__name__}
+        return {"iterator": got, "unbounded": True}
+    if id(o) in FN_NAMES:
+        return {"F": FN_NAMES[id(o)]}
+    return {"py": t.__name__}
+
+
+_ABSENT = object()
+
+
+def _item(x, k, default=_ABSENT):
+    try:
+        return x[k]
+    except (KeyError, IndexError):
+        if default is _ABSENT:
+            raise
+        return default
+
+
+def _assert(x, pred):
+    assert pred(x)
+    return x
+
+
+# the documented Python equivalent of every helper, written without labrea: f(input, **parameters).  Lazy where the
+# builtin the docstring names is lazy (map, filter, itertools.chain), so that what is pulled from a one-shot
+# operand, and when, is part of the comparison
+EQUIV = {
+    "partial": lambda x, __func, args=(), kwargs={}: functools.partial(__func, *args, **kwargs)(x),
+    "map": lambda x, func: map(func, x),
+    "filter": lambda x, func: filter(func, x),
+    "reduce": lambda x, func, initial=_ABSENT: functools.reduce(func, x) if initial is _ABSENT else functools.reduce(func, x, initial),
+    "into": lambda x, func: func(**x) if isinstance(x, Mapping) else func(*x),
+    "flatten": lambda x: itertools.chain.from_iterable(x),
+    "flatmap": lambda x, func: itertools.chain.from_iterable(map(func, x)),
+    "map_items": lambda x, func: types.MappingProxyType(dict(func(k, v) for k, v in x.items())),
+    "map_keys": lambda x, func: types.MappingProxyType(dict((func(k), v) for k, v in x.items())),
+    "map_values": lambda x, func: types.MappingProxyType(dict((k, func(v)) for k, v in x.items())),
+    "filter_items": lambda x, func: types.MappingProxyType(dict((k, v) for k, v in x.items() if func(k, v))),
+    "filter_keys": lambda x, func: types.MappingProxyType(dict((k, v) for k, v in x.items() if func(k))),
+    "filter_values": lambda x, func: types.MappingProxyType(dict((k, v) for k, v in x.items() if func(v))),
+    "concat": lambda x, iterable: itertools.chain(x, iterable),
+    "append": lambda x, item: itertools.chain(x, (item,)),
+    "intersect": lambda x, collection: set(x) & set(collection),
+    "union": lambda x, collection: set(x) | set(collection),
+    "difference": lambda x, collection: set(x) - set(collection),
+    "symmetric_difference": lambda x, collection: set(x) ^ set(collection),
+    "get": lambda x, __x, default=_ABSENT: _item(x, __x, default),
+    "get_from": lambda x, __x, default=_ABSENT: _item(__x, x, default),
+    "add": lambda x, __x: x + __x,
+    "subtract": lambda x, __x: x - __x,
+    "multiply": lambda x, __x: x * __x,
+    "left_multiply": lambda x, __x: __x * x,
+    "divide_by": lambda x, __x: x / __x,
+    "divide_into": lambda x, __x: __x / x,
+    "negate": lambda x: -x,
+    "modulo": lambda x, __x: x % __x,
+    "merge": lambda x, mapping: {**x, **mapping},
+    "length": lambda x: len(x),
+    "instance_of": lambda x, types=(): isinstance(x, tuple(types)),
+    "all": lambda x, funcs=(): all(f(x) for f in funcs),
+    "any": lambda x, funcs=(): any(f(x) for f in funcs),
+    "invert": lambda x, func=_same: not func(x),
+    "eq": lambda x, value: x == value,
+    "ne": lambda x, value: x != value,
+    "gt": lambda x, value: x > value,
+    "ge": lambda x, value: x >= value,
+    "lt": lambda x, value: x < value,
+    "le": lambda x, value: x <= value,
+    "has_remainder": lambda x, divisor, reminder: x % divisor == reminder,
+    "positive": lambda x: x > 0,
+    "negative": lambda x: x < 0,
+    "non_positive": lambda x: x <= 0,
+    "non_negative": lambda x: x >= 0,
+    "even": lambda x: x % 2 == 0,
+    "odd": lambda x: x % 2 == 1,
+    "is_none": lambda x: x is None,
+    "is_not_none": lambda x: x is not None,
+    "is_in": lambda x, container: x in container,
+    "is_not_in": lambda x, container: x not in container,
+    "one_of": lambda x, items=(): x in tuple(items),
+    "none_of": lambda x, items=(): x not in tuple(items),
+    "contains": lambda x, value: value in x,
+    "does_not_contain": lambda x, value: value not in x,
+    "intersects": lambda x, iterable: bool(set(x) & set(iterable)),
+    "disjoint_from": lambda x, iterable: not (set(x) & set(iterable)),
+    "ensure": lambda x, __predicate, __msg=_ABSENT: _assert(x, __predicate),
+    "get_attribute": lambda x, __name: getattr(x, __name),
+    "call_method": lambda x, __name, args=(), kwargs={}: getattr(x, __name)(*args, **kwargs),
+}
+
+
+def show_binding(b):
+    def one(p):
+        if "c" in p:
+            return show(p["c"])
+        return "Option(%r, %s)" % (p["o"], show(p["d"])) if "d" in p else "Option(%r)" % p["o"]
+    if "many" in b:
+        return ", ".join(one(p) for p in b["many"])
+    if "dict" in b:
+        return ", ".join("%s=%s" % (n, one(p)) for n, p in b["dict"])
+    return one(b)
+
+
+def run_operand(case):
+    """one helper on one operand: the real step against the documented Python equivalent, each on operands of
+    its own built from the same description.  Compared: the value with the types of its containers (or the class
+    of the exception), whether the result is the input object itself, what had been pulled from every one-shot
+    operand when the step returned and after the result was used up, and the input as the call left it"""
+    name = case["name"]
+    args = case.get("args", [])
+
+    def one(real):
+        del TRACK[:]
+        options = {k: dec(v) for k, v in case.get("options", [])}
+        x = dec(case["input"])
+        if real:
+            step = helper_step(name, args)
+            call = lambda: step.transform(x, options)      # noqa: E731
+        else:
+            vals = {n: resolve_binding(b, options) for n, b in args}
+            call = lambda: EQUIV[name](x, **vals)          # noqa: E731
+        out = {}
+        try:
+            r = call()
+        except Exception as e:
+            out["err"] = type(e).__name__
+        else:
+            out["pulled_at_return"] = [s[0] for s in TRACK]
+            out["result_is_the_input"] = r is x
+            out["ok"] = enc2(r)
+        out["pulled_in_all"] = [s[0] for s in TRACK]
+        out["input_afterwards"] = enc2(x)
+        return out
+
+    got, want = one(True), one(False)
+    oracle = []
+    if got != want:
+        diff = sorted(k for k in set(got) | set(want) if got.get(k) != want.get(k))
+        call = "F.%s" % name if not inspect.isfunction(getattr(F, name)) else \
+            "F.%s(%s)" % (name, ", ".join(("" if n.startswith("__") or "many" in b or "dict" in b else n + "=") + show_binding(b)
+                                             for n, b in args))
+        opts = "{%s}" % ", ".join("%r: %s" % (k, show(v)) for k, v in case.get("options", []))
+        oracle.append({"what": "helper %s on a %s operand does not compute the documented Python operation"
+                               % (name, case.get("operand", {}).get("kind", "?")),
+                       "detail": {"differs_in": diff, "got": got, "expected": want, "operand": case.get("operand"),
+                                  "python": "%s.transform(%s, %s)" % (call, show(case["input"]), opts)}})
+    return {"tf": {"ok": got["ok"]} if "ok" in got else {"err": got["err"]}, "oracle": oracle}
+
+
 def main():
     for line in sys.stdin:
         line = line.strip()
@@ -1017,7 +1501,8 @@ def main():
             continue
         case = json.loads(line)
         try:
-            out = run_pipe(case) if case["kind"] == "pipe" else run_helper(case)
+            out = run_pipe(case) if case["kind"] == "pipe" else run_operand(case) if case.get("family") == "operand" \
+                else run_helper(case)
         except Exception as e:     # building the objects failed: an observation of its own
             import traceback
             out = {"build_error": type(e).__name__, "msg": str(e)[:300], "tb": traceback.format_exc()[-600:], "oracle": []}
@@ -1793,6 +2278,287 @@ def mut_histogram(cases: List[dict], stats: Dict[str, int]) -> Dict[str, Any]:
                       "independence against a freshly built pipeline, model agreement) plus: the value a body receives "
                       "for a parameter equals the value written in the step's definition"}
 
+# ----------------------------------------------------------------------------- helpers on the containers programs pass
+
+def KD(kind: str, v) -> dict:
+    """an operand of the given kind (built afresh by the runner for every evaluation: RUNNER.KINDS)"""
+    return {"K": kind, "v": v}
+
+
+OP_MAPPINGS = ["dict", "counter", "defaultdict_list", "defaultdict_int", "defaultdict_nofactory", "ordereddict", "chainmap",
+               "chainmap_missing", "dict_missing", "dict_missing_raises", "mappingproxy", "userdict", "userdict_missing",
+               "abc_mapping"]
+OP_SEQUENCES = ["list", "tuple", "str", "bytes", "bytearray", "range", "deque", "userlist", "userstring", "namedtuple"]
+OP_SETS = ["set", "frozenset", "dict_keys", "dict_values", "dict_items"]
+OP_ONESHOT = ["generator", "list_iterator", "map_object", "chain_object", "iterator_class"]
+OP_PROTOCOLS = ["getitem_only", "getitem_len", "iter_only", "contains_only", "keyed_getitem_only"]
+OP_SCALARS = ["int", "none"]
+OP_KINDS = OP_MAPPINGS + OP_SEQUENCES + OP_SETS + OP_ONESHOT + OP_PROTOCOLS + OP_SCALARS
+
+_OP_PAIRS = {"strs": [["a", 1], ["b", 2]], "ints": [[1, 10], [2, 20]], "nested": [["a", [1, 2]], ["b", [3]]], "empty": [],
+             "other": [[2, 5], ["b", 7]]}
+_OP_ITEMS = {"strs": ["a", "b"], "ints": [10, 20, 30], "nested": [[1, 2], [3]], "empty": [], "other": [20, 40]}
+_OP_TEXT = {"strs": "ab", "ints": "abc", "nested": "ab", "empty": "", "other": "bd"}
+_OP_SPECIAL = {
+    "range": {"ints": [10, 40, 10], "empty": [0], "other": [20, 60, 20]},
+    "bytes": {k: v for k, v in _OP_TEXT.items() if k != "strs"},
+    "bytearray": {k: v for k, v in _OP_TEXT.items() if k != "strs"},
+    "set": {**_OP_ITEMS, "nested": [TUP(1, 2), TUP(3)]},
+    "frozenset": {**_OP_ITEMS, "nested": [TUP(1, 2), TUP(3)]},
+    "dict_keys": {"ints": [[10, 1], [20, 2], [30, 3]], "strs": [["a", 1], ["b", 2]], "nested": [[TUP(1, 2), 0], [TUP(3), 0]],
+                  "empty": [], "other": [[20, 1], [40, 2]]},
+    "dict_values": {"ints": [["a", 10], ["b", 20], ["c", 30]], "strs": [[1, "a"], [2, "b"]], "nested": [["a", [1, 2]], ["b", [3]]],
+                    "empty": [], "other": [["a", 20], ["b", 40]]},
+    "dict_items": {"ints": [[1, 10], [2, 20]], "strs": [["a", 1], ["b", 2]], "nested": [["a", 1], ["b", 2]], "empty": [],
+                   "other": [[2, 20], [3, 7]]},
+    "generator": {**_OP_ITEMS, "nested": [KD("generator", [1, 2]), [3], KD("list_iterator", [4])]},
+    "int": {"ints": 5, "other": 3, "empty": 0},
+    "none": {"ints": None},
+}
+
+
+def op_content(kind: str, tag: str):
+    """(found, operand of the kind with the tagged content) -- not every kind can hold every content"""
+    if kind in _OP_SPECIAL:
+        t = _OP_SPECIAL[kind]
+        if tag not in t:
+            return False, None
+        return True, (t[tag] if kind in OP_SCALARS else KD(kind, t[tag]))
+    if kind in OP_MAPPINGS or kind == "keyed_getitem_only":
+        return True, KD(kind, _OP_PAIRS[tag])
+    if kind in ("str", "userstring"):
+        return True, KD(kind, _OP_TEXT[tag])
+    return True, KD(kind, _OP_ITEMS[tag])
+
+
+SAME, OTHER = {"same": 1}, {"other": 1}      # "an operand of the same kind with the same / with other content"
+
+
+def PK(name: str) -> dict:
+    return FN("prim:" + name)
+
+
+# (helper, [(parameter, value, may be given as an Option)], contents of the input operand, is a scalar helper)
+OP_INPUT_ROWS: List[Tuple[str, list, List[str], bool]] = [
+    ("map", [("func", PK("pair"), 0)], ["ints", "strs", "empty"], False),
+    ("filter", [("func", PK("keep"), 0)], ["ints", "strs"], False),
+    ("reduce", [("func", PK("nest"), 0)], ["ints", "empty"], False),
+    ("reduce", [("func", PK("nest"), 0), ("initial", 0, 1)], ["ints", "empty"], False),
+    ("reduce", [("func", PK("nest"), 0), ("initial", None, 0)], ["ints", "empty"], False),
+    ("into", [("func", PK("capture"), 0)], ["ints", "strs", "empty"], False),
+    ("flatten", [], ["nested", "strs", "ints"], False),
+    ("flatmap", [("func", PK("pair"), 0)], ["ints"], False),
+    ("flatmap", [("func", PK("gen2"), 0)], ["strs"], False),
+    ("flatmap", [("func", PK("ident"), 0)], ["nested"], False),
+    ("map_items", [("func", PK("kv_box"), 0)], ["ints", "strs"], False),
+    ("map_keys", [("func", PK("k_tuple"), 0)], ["ints", "strs"], False),
+    ("map_values", [("func", PK("box"), 0)], ["ints", "strs"], False),
+    ("filter_items", [("func", PK("kv_keep"), 0)], ["ints", "strs"], False),
+    ("filter_keys", [("func", PK("keep"), 0)], ["ints", "strs"], False),
+    ("filter_values", [("func", PK("keep"), 0)], ["ints", "strs"], False),
+    ("concat", [("iterable", [8, 9], 0)], ["ints", "empty"], False),
+    ("concat", [("iterable", KD("generator", [8, 9]), 0)], ["ints"], False),
+    ("append", [("item", 9, 1)], ["ints", "empty"], False),
+    ("append", [("item", [9], 0)], ["strs"], False),
+    ("length", [], ["ints", "empty"], False),
+    ("contains", [("value", 20, 1)], ["ints"], False), ("contains", [("value", 1, 1)], ["ints"], False),
+    ("contains", [("value", "a", 1)], ["strs"], False), ("contains", [("value", "zz", 1)], ["strs"], False),
+    ("contains", [("value", [1], 0)], ["ints"], False),
+    ("does_not_contain", [("value", 20, 1)], ["ints"], False), ("does_not_contain", [("value", "a", 1)], ["strs"], False),
+    ("does_not_contain", [("value", [1], 0)], ["ints"], False),
+    ("merge", [("mapping", DICT(["b", 9], ["z", 0]), 0)], ["strs", "ints", "empty"], False),
+    ("merge", [("mapping", DICT([2, 9], [7, 0]), 0)], ["strs", "ints"], False),
+    ("merge", [("mapping", DICT(), 0)], ["strs"], False),
+] + [(n, [(p, [20, 30, "a", 1], 0)], ["ints", "strs"], False)
+     for n, p in [("intersect", "collection"), ("union", "collection"), ("difference", "collection"),
+                  ("symmetric_difference", "collection"), ("intersects", "iterable"), ("disjoint_from", "iterable")]] + [
+    ("add", [("__x", OTHER, 0)], ["ints"], True), ("add", [("__x", [1], 0)], ["ints"], True), ("add", [("__x", 2, 1)], ["ints"], True),
+    ("subtract", [("__x", OTHER, 0)], ["ints"], True), ("subtract", [("__x", 2, 1)], ["ints"], True),
+    ("multiply", [("__x", 2, 1)], ["ints"], True), ("multiply", [("__x", OTHER, 0)], ["ints"], True),
+    ("left_multiply", [("__x", 2, 1)], ["ints"], True), ("left_multiply", [("__x", OTHER, 0)], ["ints"], True),
+    ("divide_by", [("__x", 2, 1)], ["ints"], True), ("divide_by", [("__x", OTHER, 0)], ["ints"], True),
+    ("divide_into", [("__x", 2, 1)], ["ints"], True),
+    ("modulo", [("__x", 2, 1)], ["ints"], True), ("modulo", [("__x", OTHER, 0)], ["ints", "strs"], True),
+    ("has_remainder", [("divisor", 2, 1), ("reminder", 0, 1)], ["ints"], True),
+] + [(n, [], ["ints"], True) for n in ("negate", "positive", "negative", "non_positive", "non_negative", "even", "odd",
+                                       "is_none", "is_not_none")] + [
+    (n, [("value", v, 0)], ["ints"], True) for n in ("eq", "ne", "gt", "ge", "lt", "le") for v in (SAME, OTHER, [10, 20, 30])
+] + [
+    ("instance_of", [("types", {"many": [TY("Mapping")]}, 0)], ["ints"], True),
+    ("instance_of", [("types", {"many": [TY("list"), TY("tuple"), TY("Sequence")]}, 0)], ["ints"], True),
+    ("instance_of", [("types", {"many": [TY("Iterator"), TY("Set")]}, 0)], ["ints"], True),
+    ("instance_of", [("types", {"many": [TY("dict")]}, 0)], ["ints"], True),
+    ("all", [("funcs", {"many": [PK("truthy"), PK("longer")]}, 0)], ["ints", "empty"], True),
+    ("any", [("funcs", {"many": [PK("longer"), PK("truthy")]}, 0)], ["ints", "empty"], True),
+    ("invert", [], ["ints", "empty"], True), ("invert", [("func", PK("longer"), 0)], ["ints"], True),
+    ("ensure", [("__predicate", PK("truthy"), 0)], ["ints", "empty"], True),
+    ("ensure", [("__predicate", PK("truthy"), 0), ("__msg", "must hold something", 1)], ["empty"], True),
+    ("get_attribute", [("__name", "__class__", 1)], ["ints"], True), ("get_attribute", [("__name", "nope", 1)], ["ints"], True),
+    ("get_attribute", [("__name", "data", 1)], ["ints"], True), ("get_attribute", [("__name", "default_factory", 1)], ["ints"], True),
+    ("call_method", [("__name", "get", 1), ("args", {"many": ["a", "D"]}, 0)], ["strs"], True),
+    ("call_method", [("__name", "count", 1), ("args", {"many": [20]}, 0)], ["ints"], True),
+    ("call_method", [("__name", "__len__", 1)], ["ints"], True), ("call_method", [("__name", "copy", 1)], ["ints"], True),
+    ("call_method", [("__name", "items", 1)], ["strs"], True),
+    ("partial", [("__func", PK("capture"), 0), ("args", {"many": [[1], KD("counter", [["a", 1]])]}, 0),
+                 ("kwargs", {"dict": [["z", 3]]}, 0)], ["ints"], True),
+]
+# (helper, the parameter holding the operand, its contents, the other parameters, the plain inputs)
+OP_PARAM_ROWS: List[Tuple[str, str, List[str], list, list]] = [
+    ("concat", "iterable", ["ints", "empty"], [], [[1, 2], KD("generator", [1, 2])]),
+    ("append", "item", ["ints"], [], [[1, 2]]),
+    ("is_in", "container", ["ints"], [], [20, 1, [1], 99]), ("is_in", "container", ["strs"], [], ["a", "zz"]),
+    ("is_not_in", "container", ["ints"], [], [20, [1]]), ("is_not_in", "container", ["strs"], [], ["a", "zz"]),
+    ("merge", "mapping", ["strs", "ints", "empty"], [], [DICT(["a", 0], ["q", 5]), DICT([1, 0], [9, 5])]),
+    ("eq", "value", ["ints"], [], [[10, 20, 30], DICT([1, 10], [2, 20])]),
+    ("add", "__x", ["ints"], [], [[1]]),
+    ("left_multiply", "__x", ["ints"], [], [2]),
+    ("reduce", "initial", ["ints"], [("func", PK("nest"), 0)], [[1, 2]]),
+    ("one_of", "items", ["ints"], [], [SAME, OTHER, 5]), ("none_of", "items", ["ints"], [], [SAME, 5]),
+] + [(n, p, ["ints", "strs"], [], [[20, 30, "a", 1]])
+     for n, p in [("intersect", "collection"), ("union", "collection"), ("difference", "collection"),
+                  ("symmetric_difference", "collection"), ("intersects", "iterable"), ("disjoint_from", "iterable")]]
+# one_of / none_of on scalars: membership is by ==, items need not be hashable, nor the input
+OP_ITEM_ROWS = [(n, items, x) for n in ("one_of", "none_of")
+                for items in ([1, "a", [1]], [1, "a"], [TUP(1, 2), DICT(["k", 1])])
+                for x in (1, "a", [1], 2, True, DICT(["k", 1]), TUP(1, 2))]
+# the key / index situations of get and get_from, by the operand's class
+OP_DEFAULTS = [("no default", None), ("default None", C(None)), ("default 0", 0), ("default 'dflt'", "dflt")]
+OP_GET_SITUATIONS = {
+    "mapping": [("strs", "a", "key present"), ("strs", "zz", "key absent"), ("ints", 1, "int key present"),
+                ("ints", 7, "int key absent"), ("ints", -1, "negative int key absent"), ("ints", 0, "key 0 absent"),
+                ("strs", [1], "unhashable key"), ("empty", "a", "empty, key absent")],
+    "sequence": [("ints", 0, "index 0"), ("ints", 2, "last index"), ("ints", -1, "index -1"), ("ints", -3, "index -len"),
+                 ("ints", 3, "index len"), ("ints", -4, "index -len-1"), ("ints", 99, "index far out of range"),
+                 ("ints", "a", "str index"), ("empty", 0, "empty, index 0"), ("empty", -1, "empty, index -1")],
+    "other": [("ints", 0, "index 0"), ("ints", 5, "index out of range"), ("ints", -1, "index -1"), ("ints", "a", "str key")],
+}
+
+
+def op_class(kind: str) -> str:
+    return "mapping" if kind in OP_MAPPINGS or kind == "keyed_getitem_only" else "sequence" if kind in OP_SEQUENCES else "other"
+
+
+def operand_family(seed: int, thorough: bool) -> List[dict]:
+    """directed family, run in every run: every helper of labrea.functions on every kind of container Python
+    programs pass (collections.Counter / defaultdict / OrderedDict / ChainMap, dict subclasses with __missing__,
+    mappingproxy, UserDict / UserList / UserString, deque, range, bytes, named tuples, sets and dict views,
+    generators and other one-shot iterators, classes with only __getitem__ / __iter__ / __contains__), as the
+    input and as the container parameter; get / get_from over every key / index situation with the default
+    omitted, None, and given.  Reference: the documented Python equivalent, computed by the runner without labrea
+    (RUNNER.EQUIV) on operands of its own.  The seed moves which cases give their scalar parameters as Options
+    (and, in the quick tier, which quarter of the kinds each scalar helper row visits; the quick tier also leaves
+    out the second contents of the single-input parameter rows and the `default=0` column of get / get_from)."""
+    cs: List[dict] = []
+    modes = ("c", "o", "c", "d")
+
+    def put(name, args, inp, kind, role, situation):
+        """args: [(parameter, value or {"many"/"dict"}, may be an Option)]"""
+        n = len(cs) + seed
+        bargs, options, mode = [], [], ""
+        for j, (p, v, optable) in enumerate(args):
+            how = modes[(n + j) % 4] if optable else "c"
+            if how == "d" and isinstance(v, str):
+                how = "o"
+            mode += how
+            if isinstance(v, dict) and "many" in v:
+                items = []
+                for m, x in enumerate(v["many"]):        # the first member varies, the others stay constants
+                    h = how if (m == 0 and not (how == "d" and isinstance(x, str))) else "o" if (m == 0 and how == "d") else "c"
+                    b, o = _as_bparam(x, h, "K_" + p.strip("_"))
+                    items.append(b); options += o
+                bargs.append([p, {"many": items}])
+            elif isinstance(v, dict) and "dict" in v:
+                bargs.append([p, {"dict": [[kn, C(x)] for kn, x in v["dict"]]}])
+            elif isinstance(v, dict) and set(v) == {"c"}:
+                bargs.append([p, v])
+            else:
+                b, o = _as_bparam(v, how, "K_" + p.strip("_"))
+                bargs.append([p, b]); options += o
+        cs.append({"kind": "helper", "family": "operand", "name": name, "args": bargs, "options": options, "input": inp,
+                   "oracle": True, "model": False, "mode": mode,
+                   "operand": {"kind": kind, "role": role, "situation": situation}})
+
+    def resolve(v, kind, tag):
+        """SAME / OTHER stand for an operand of the kind under test"""
+        if v is SAME or v is OTHER:
+            return op_content(kind, tag if v is SAME else "other")
+        if isinstance(v, dict) and "many" in v:
+            xs = [resolve(x, kind, tag) for x in v["many"]]
+            return all(f for f, _ in xs), {"many": [x for _, x in xs]}
+        return True, v
+
+    # (1) every helper with the operand as its input
+    for ri, (name, args, tags, scalar) in enumerate(OP_INPUT_ROWS):
+        for ki, kind in enumerate(OP_KINDS):
+            if scalar and not thorough and (ri + ki + seed) % 4:
+                continue
+            for tag in tags:
+                found, inp = op_content(kind, tag)
+                if not found:
+                    continue
+                rs = [(p,) + resolve(v, kind, tag) + (o,) for p, v, o in args]
+                if not all(f for _, f, _, _ in rs):
+                    continue
+                put(name, [(p, v, o) for p, _, v, o in rs], inp, kind, "input", tag)
+    # (2) the operand as the container parameter
+    for name, pname, tags, others, inputs in OP_PARAM_ROWS:
+        for kind in OP_KINDS:
+            for tag in tags[:None if thorough or len(inputs) > 1 else 1]:
+                found, operand = op_content(kind, tag)
+                if not found:
+                    continue
+                for x in inputs:
+                    f2, x2 = resolve(x, kind, tag)
+                    if not f2:
+                        continue
+                    pv = {"many": [operand, 5]} if name in ("one_of", "none_of") else operand
+                    put(name, others + [(pname, pv, 0)], x2, kind, "parameter " + pname, tag)
+    for name, items, x in OP_ITEM_ROWS:
+        put(name, [("items", {"many": items}, 1)], x, "scalars", "parameter items", "items %d" % len(items))
+    # (3) get / get_from: key / index situation x default situation
+    for kind in OP_KINDS:
+        for tag, key, situation in OP_GET_SITUATIONS[op_class(kind)]:
+            found, operand = op_content(kind, tag)
+            if not found:
+                continue
+            for dlabel, dv in OP_DEFAULTS:
+                if not thorough and dlabel == "default 0":
+                    continue
+                dargs = [] if dv is None else [("default", dv, 0 if isinstance(dv, dict) else 1)]
+                key_optable = 0 if isinstance(key, list) else 1
+                put("get", [("__x", key, key_optable)] + dargs, operand, kind, "input", situation + ", " + dlabel)
+                put("get_from", [("__x", operand, 0)] + dargs, key, kind, "parameter __x", situation + ", " + dlabel)
+    return cs
+
+
+def operand_histogram(cases: List[dict]) -> Dict[str, Any]:
+    """what the operand family of this run was made of (counted on the cases)"""
+    per: Dict[str, Dict[str, int]] = {}
+    kinds: Dict[str, int] = {}
+    roles: Dict[str, int] = {}
+    gets: Dict[str, int] = {}
+    n = 0
+    for c in cases:
+        if c.get("family") != "operand":
+            continue
+        n += 1
+        o = c["operand"]
+        per.setdefault(c["name"], {})
+        per[c["name"]][o["kind"]] = per[c["name"]].get(o["kind"], 0) + 1
+        kinds[o["kind"]] = kinds.get(o["kind"], 0) + 1
+        roles[o["role"].split()[0]] = roles.get(o["role"].split()[0], 0) + 1
+        if c["name"] in ("get", "get_from"):
+            for part, label in zip(("key or index: ", "default: "), o["situation"].rsplit(", ", 1)):
+                gets[part + label] = gets.get(part + label, 0) + 1
+    return {"cases": n, "helpers": len(per), "operand_kinds": len([k for k in kinds if k != "scalars"]),
+            "cases_by_operand_kind": kinds, "cases_by_role_of_the_operand": roles,
+            "cases_by_helper_and_operand_kind": per, "get_and_get_from_cases_by_key_and_default_situation": gets,
+            "reference": "the documented Python equivalent of the helper (RUNNER.EQUIV, written without labrea), evaluated "
+                         "on operands of its own built from the same description",
+            "compared": "value with the types of its containers, or exception class; whether the result is the input "
+                        "object; items pulled from every one-shot operand when the step returns and after the result is "
+                        "used up; the input operand as the call left it"}
+
 # ----------------------------------------------------------------------------- running both sides
 
 def run_impl(cases: List[dict]) -> List[Dict[str, Any]]:
@@ -2052,6 +2818,7 @@ def build_cases(ctx: Ctx, scale: float = 1.0) -> List[dict]:
     cases += exhaustive(6 if thorough else 5)
     cases += helper_corpus()
     cases += mutable_family(ctx.seed, thorough)
+    cases += operand_family(ctx.seed, thorough)
     n_random = int((25000 if thorough else 2500) * scale)
     for i in range(n_random):
         cases.append(g.case(rng.choice([1, 2, 2, 3, 3, 4, 4, 5, 5, 6, 6])))
@@ -2068,6 +2835,10 @@ def coverage_problems() -> List[str]:
     for n in HELPER_CASES:
         if names and n not in names:
             probs.append(f"helper {n} of the C13 corpus is no longer defined by labrea/functions.py")
+    on_operands = {r[0] for r in OP_INPUT_ROWS} | {r[0] for r in OP_PARAM_ROWS} | {r[0] for r in OP_ITEM_ROWS} | {"get", "get_from"}
+    for n in names:
+        if n not in on_operands:
+            probs.append(f"helper {n} of labrea/functions.py has no row in the C13 operand family")
     return probs
 
 
@@ -2079,8 +2850,14 @@ def explore_core(ctx: Ctx, with_model: bool, scale: float = 1.0) -> Tuple[List[F
     judged: List[List[Tuple[str, str, Dict[str, Any]]]] = []
     CH = 1500
     stats: Dict[str, int] = {}
-    for i in range(0, len(cases), CH):
-        judged += evaluate(cases[i:i + CH], with_model, stats)
+    i = 0
+    while i < len(cases):       # the operand-family cases are light (one step, one call, no model run): ten count as one
+        j, w = i, 0.0
+        while j < len(cases) and w < CH:
+            w += 0.1 if cases[j].get("family") == "operand" else 1.0
+            j += 1
+        judged += evaluate(cases[i:j], with_model, stats)
+        i = j
     seen_what = set()
     disagreements = 0
     errs: Dict[str, int] = {}
@@ -2117,6 +2894,7 @@ def explore_core(ctx: Ctx, with_model: bool, scale: float = 1.0) -> Tuple[List[F
            "programs": len(cases), "disagreements_checked": disagreements, "samples": samples,
            "distribution": histogram(cases, errs),
            "steps_editing_their_parameters": mut_histogram(cases, stats),
+           "helpers_on_the_containers_programs_pass": operand_histogram(cases),
            "translator": {"rows": len(TRANSLATED_ROWS), "problems": TRANSLATOR_PROBLEMS}}
     return findings, cov
 
